@@ -43,6 +43,10 @@ func (e *Entrypoint) Validate() error {
 	if strings.Contains(e.Name, "_") {
 		return ErrUnderlineInEntrypointName
 	}
+	// names are components of the metadata keys, "/" is the separator there
+	if strings.Contains(e.Name, "/") {
+		return ErrSlashInName
+	}
 	return nil
 }
 
